@@ -59,11 +59,119 @@ def marginal_keep(shape, grids, phi, keep):
         out[key] = out.get(key, 0.0) + w * v
     return out
 
+def flat_index(shape, ix):
+    f = 0
+    for n, i in zip(shape, ix):
+        f = f * n + i
+    return f
+
+def transpose_flat(shape, phi, newaxes):
+    """logical content of numpy's phi.transpose(newaxes): out[i] = phi[j] with j[newaxes[a]] = i[a]; returns (new shape, flat list)"""
+    nshape = [shape[a] for a in newaxes]
+    out = []
+    for f in range(len(phi)):
+        ix = unflat(nshape, f)
+        j = [0] * len(shape)
+        for a, na in enumerate(newaxes):
+            j[na] = ix[a]
+        out.append(phi[flat_index(shape, j)])
+    return nshape, out
+
+def flat_marginal(shape, grids, phi, keep):
+    """marginal_keep as a flat C-ordered list over the kept axes (in increasing axis order)"""
+    keep = sorted(keep)
+    mk = marginal_keep(shape, grids, phi, keep)
+    kshape = [shape[a] for a in keep]
+    tot = 1
+    for n in kshape:
+        tot *= n
+    return kshape, [mk[tuple(unflat(kshape, j))] for j in range(tot)]
+
+# ---- memory layouts (interpreted by harness/impl/c04_impl.py::relayout): same shape, same logical content, different addressing.
+# The model side and every predicate below work on the logical content only, so no expectation depends on the layout.
+def layouts(d):
+    if d == 1:
+        return [{'name': 'stepped slice', 'step': [0]}, {'name': 'negative stride', 'neg': [0]}, {'name': 'window of a larger array', 'pad': True},
+                {'name': 'negative stride, stepped, window', 'neg': [0], 'step': [0], 'pad': True}]
+    ident = list(range(d))
+    rev = ident[::-1]
+    rotl = ident[1:] + [0]; rotr = [d - 1] + ident[:-1]
+    sw0 = [1, 0] + ident[2:]; swl = ident[:-2] + [d - 1, d - 2]
+    orders = []
+    for o in (rev, sw0, swl, rotl, rotr):
+        if o != ident and o not in orders:
+            orders.append(o)
+    L = [{'name': 'Fortran-ordered array', 'fortran': True}]
+    L += [{'name': 'transposed view, memory axis order %s' % ''.join(str(a + 1) for a in o), 'order': o} for o in orders]
+    L += [{'name': 'negative stride along axis 1', 'neg': [0]}, {'name': 'negative stride along axis %d' % d, 'neg': [d - 1]},
+          {'name': 'stepped slice along axis %d' % d, 'step': [d - 1]}, {'name': 'stepped slice along axis 1', 'step': [0]},
+          {'name': 'stepped slice along every axis', 'step': ident}, {'name': 'window of a larger array', 'pad': True},
+          {'name': 'transposed view (memory axis order %s) with negative stride along axis 1, window' % ''.join(str(a + 1) for a in rev), 'order': rev, 'neg': [0], 'pad': True},
+          {'name': 'transposed view (memory axis order %s), stepped along axis 2' % ''.join(str(a + 1) for a in rotl), 'order': rotl, 'step': [1]}]
+    return L
+
+def layout_perm(l, d):
+    """memory axis order of a layout (identity = C order)"""
+    if not l:
+        return list(range(d))
+    if l.get('fortran'):
+        return list(range(d))[::-1]
+    return list(l.get('order') or range(d))
+
+def lname(c):
+    s = (c.get('layout') or {}).get('name', 'C-contiguous')
+    if c.get('xlayout'):
+        s += '; grid: ' + c['xlayout']['name']
+    return s
+
+XLAYOUTS = [None] + layouts(1)
+
+def axis_marginals(n, d, phi):
+    out = []
+    for a in range(d):
+        m = [0.0] * n
+        for j, v in enumerate(phi):
+            m[unflat([n] * d, j)[a]] += v
+        out.append(m)
+    return out
+
+def asym_density(rng, n, d, kind='random'):
+    """density on an n^d grid whose one-axis marginals are pairwise clearly different (so an exchange of population axes is visible
+    in every marginal-based predicate) -- checked, not assumed"""
+    for attempt in range(200):
+        phi = numgen.density(rng, n ** d, kind=kind)
+        if d == 1:
+            return phi
+        ms = axis_marginals(n, d, phi)
+        sc = max(max(abs(v) for v in m) for m in ms) or 1.0
+        if all(max(abs(x - y) for x, y in zip(ms[a], ms[b])) > 0.02 * sc for a in range(d) for b in range(a + 1, d)):
+            return phi
+    raise RuntimeError('could not generate an axis-asymmetric density')
+
+def distinct_pops(rng, pops, nu_lo, nu_hi, sel=True):
+    """distinct nu (and, with selection, distinct gamma) per population: a permutation of the population axes changes the dynamics"""
+    for attempt in range(200):
+        for p in pops:
+            p['nu'] = numgen.logdy(rng, nu_lo, nu_hi)
+            if sel:
+                p['gamma'] = lib.dyadic(rng, -8, 8, 3)
+                p['h'] = rng.choice([0.5, 0.0, 1.0, 0.25])
+        nus = [p['nu'] for p in pops]
+        if all(abs(a / b - 1) > 0.05 for i, a in enumerate(nus) for b in nus[i + 1:]) and \
+           (not sel or len(set(p['gamma'] for p in pops)) == len(pops)):
+            return
+    raise RuntimeError('could not generate distinct population parameters')
+
 def Mfun(p, os, x):
     return sum(m * (o - x) for m, o in zip(p['ms'], os)) + p['gamma'] * 2 * (p['h'] + (1 - 2 * p['h']) * x) * x * (1 - x)
 
 def run(ctx):
-    ctx.rule = ('sweep cases = every (dimension, axis) kernel on unequal shapes with random grids/parameters (mass balance per sweep); driver cases = 2-5 '
+    ctx.rule = ('array arguments of the drivers / _inject_mutations / remove_pop / filter_pops are handed over C-contiguous AND, for the same logical '
+                'content, Fortran-ordered, as transposed views (several memory axis orders), with a negative stride, as stepped slices and as windows of larger '
+                'arrays (grids: stepped / reversed / window), d = 2..5, both drivers, every planned frozen subset; pipelines reorder_pops / remove_pop / filter_pops '
+                '-> integrator (-> reorder_pops -> filter_pops) with a frozen population or isolated populations; densities have pairwise different axis '
+                'marginals and populations pairwise different nu (and gamma) -- checked at generation; '
+                'sweep cases = every (dimension, axis) kernel on unequal shapes with random grids/parameters (mass balance per sweep); driver cases = 2-5 '
                 'populations with every admissible frozen subset, nomut flags (2-D), constants and functions of time; isolated-subset cases = no migration, '
                 'no selection, one time step, every non-empty proper subset of populations; distinct = distinct parameter tuples; non-trivial = selection or migration present')
     ctx.assumptions += ['identities evaluated on float64 outputs at 1e-10 relative to the total mass (observed <= 1e-14 on the unchanged tree)',
@@ -89,8 +197,18 @@ def run(ctx):
             c = {'kind': 'inject', 'shape': [n] * d, 'grid': g, 'phi': numgen.density(rng, n ** d), 'dt': numgen.logdy(rng, 1e-5, 1e-1),
                  'theta0': lib.dyadic(rng, 0.25, 4, 4), 'frozen': fr, 'nomut': nm}
             injects.append(c); cases.append(c)
+    # the same influx identity with the density (and the grid) in every memory layout
+    for d in range(2, 6):
+        n = 3 if d == 5 else 4
+        g = numgen.grid(rng, n)
+        base = {'kind': 'inject', 'shape': [n] * d, 'grid': g, 'phi': numgen.density(rng, n ** d, kind='random'), 'dt': numgen.logdy(rng, 1e-5, 1e-1),
+                'theta0': lib.dyadic(rng, 0.25, 4, 4), 'frozen': [a == 1 for a in range(d)], 'nomut': [a == 0 and d == 2 for a in range(d)]}
+        for li, lay in enumerate(layouts(d)):
+            c = dict(base, layout=lay, xlayout=XLAYOUTS[li % len(XLAYOUTS)])
+            injects.append(c); cases.append(c)
     # ---- (3) frozen marginals through the public drivers (const and function paths)
     frozen_cases = []
+    layout_clones = []
     # every non-empty proper frozen subset x both drivers (scalars -> precomputed-coefficient path, functions -> time-dependent path)
     # for 2 and 3 populations, every single frozen population for 4 and 5, on every run; random subsets on top
     plan = []
@@ -114,10 +232,8 @@ def run(ctx):
             pops = [numgen.pop(rng, d) for _ in range(d)]
             nf = rng.randint(1, d - 1)
             fz = set(rng.sample(range(d), nf)) if fz_plan is None else fz_plan
+            distinct_pops(rng, pops, 0.1, 10)
             for i, p in enumerate(pops):
-                p['nu'] = numgen.logdy(rng, 0.1, 10)
-                p['gamma'] = lib.dyadic(rng, -8, 8, 3)
-                p['h'] = rng.choice([0.5, 0.0, 1.0, 0.25])
                 others = [j for j in range(d) if j != i]
                 p['ms'] = [0.0 if (i in fz or j in fz) else lib.dyadic(rng, 0, 4, 3) for j in others]
                 p['frozen'] = i in fz
@@ -126,38 +242,73 @@ def run(ctx):
             T = numgen.logdy(rng, 1.2 * tf / mv, 2.8 * tf / mv)
             mode = (rng.choice([None, 'const']) if d <= 3 else 'const') if md_plan == 'rand' else md_plan
             c = {'kind': 'driver', 'shape': [n] * d, 'grid': g, 'pops': pops, 'theta0': lib.dyadic(rng, 0.25, 4, 4), 'tf': tf, 'delj': False,
-                 'T': T, 'phi': numgen.density(rng, n ** d, kind='random'), 'as_func': mode, 'theta_slope': 0.0, '_frozen': sorted(fz)}
+                 'T': T, 'phi': asym_density(rng, n, d), 'as_func': mode, 'theta_slope': 0.0, '_frozen': sorted(fz)}
             frozen_cases.append(c); cases.append(c)
+            ctx.count('frozen d=%d layout=C-contiguous' % d)
+            if md_plan == 'rand':
+                continue
+            # the SAME logical case with the density handed over in every other memory layout (the grid cycles through its own
+            # layouts): all planned (d, frozen subset, driver) combinations, so that for every layout that stores the axes in another
+            # order some frozen subset is not invariant under that order
+            lays = layouts(d)
+            if not ctx.quick:
+                o = list(range(d)); rng.shuffle(o)
+                if o != list(range(d)):
+                    lays = lays + [{'name': 'transposed view, memory axis order %s' % ''.join(str(a + 1) for a in o), 'order': o, 'neg': [rng.randrange(d)]}]
+            for li, lay in enumerate(lays):
+                cl = dict(c, layout=lay, xlayout=XLAYOUTS[(li + len(frozen_cases)) % len(XLAYOUTS)])
+                frozen_cases.append(cl); cases.append(cl); layout_clones.append(cl)
+                ctx.count('frozen d=%d layout=%s' % (d, lay['name'].split(',')[0].split(' along')[0].split(' (')[0]))
     # ---- (4) isolated subsets: m = gamma = 0, one step
     iso = []
     for d in range(2, 6):
-        subsets = [s for r in range(1, d) for s in itertools.combinations(range(d), r)]
-        if ctx.quick or d == 5:
-            subsets = rng.sample(subsets, min(len(subsets), 3 if ctx.quick else 8))
-        n = {2: 6, 3: 5, 4: 4, 5: 3}[d]
-        g = numgen.grid(rng, n, kind=rng.choice(['uniform', 'exp', 'quad']))
-        pops = [numgen.pop(rng, d, mig=False, sel=False) for _ in range(d)]
-        for p in pops:
-            p['nu'] = numgen.logdy(rng, 0.2, 5)
-        tf = 1 / 64
-        dtmin = tf / max(0.25 / p['nu'] for p in pops)
-        T = numgen.logdy(rng, 0.3 * dtmin, 0.9 * dtmin)     # a single step of length T in the joint AND in every stand-alone run
-        theta0 = lib.dyadic(rng, 0.25, 4, 4)
-        phi = numgen.density(rng, n ** d, kind='random')
-        mode = rng.choice([None, 'const']) if d <= 3 else 'const'
-        joint = {'kind': 'driver', 'shape': [n] * d, 'grid': g, 'pops': pops, 'theta0': theta0, 'tf': tf, 'delj': False, 'T': T, 'phi': phi,
-                 'as_func': mode, 'theta_slope': 0.0}
-        cases.append(joint)
-        for S in subsets:
-            S = list(S)
-            mphi = marginal_keep([n] * d, [g] * d, phi, S)
-            sub_phi = [mphi[tuple(unflat([n] * len(S), j))] for j in range(n ** len(S))]
-            sub = {'kind': 'driver', 'shape': [n] * len(S), 'grid': g, 'pops': [dict(pops[i], ms=[0.0] * (len(S) - 1)) for i in S], 'theta0': theta0,
-                   'tf': tf, 'delj': False, 'T': T, 'phi': sub_phi, 'as_func': (mode if len(S) <= 3 else 'const'), 'theta_slope': 0.0}
-            if len(S) == 1:
-                sub['pops'][0]['beta'] = 1.0
-            cases.append(sub)
-            iso.append((joint, S, sub))
+        allsub = [s for r in range(1, d) for s in itertools.combinations(range(d), r)]
+        singles = [s for s in allsub if len(s) == 1]
+        multi = [s for s in allsub if len(s) > 1]
+        for mode in ((None, 'const') if d <= 3 else ('const',)):
+            subsets = list(allsub)
+            if ctx.quick or d == 5:
+                subsets = rng.sample(subsets, min(len(subsets), 3 if ctx.quick else 8))
+            # every single population on every run (any exchange of population axes moves one of them), and one larger subset
+            subsets = subsets + [s for s in singles if s not in subsets]
+            if multi and not any(len(s) > 1 for s in subsets):
+                subsets.append(rng.choice(multi))
+            n = {2: 6, 3: 5, 4: 4, 5: 3}[d]
+            g = numgen.grid(rng, n, kind=rng.choice(['uniform', 'exp', 'quad']))
+            pops = [numgen.pop(rng, d, mig=False, sel=False) for _ in range(d)]
+            distinct_pops(rng, pops, 0.2, 5, sel=False)
+            tf = 1 / 64
+            dtmin = tf / max(0.25 / p['nu'] for p in pops)
+            T = numgen.logdy(rng, 0.3 * dtmin, 0.9 * dtmin)     # a single step of length T in the joint AND in every stand-alone run
+            theta0 = lib.dyadic(rng, 0.25, 4, 4)
+            phi = asym_density(rng, n, d)
+            joint = {'kind': 'driver', 'shape': [n] * d, 'grid': g, 'pops': pops, 'theta0': theta0, 'tf': tf, 'delj': False, 'T': T, 'phi': phi,
+                     'as_func': mode, 'theta_slope': 0.0}
+            cases.append(joint)
+            joints = [joint]
+            for li, lay in enumerate(layouts(d)):
+                jl = dict(joint, layout=lay, xlayout=XLAYOUTS[(li + d) % len(XLAYOUTS)])
+                cases.append(jl); joints.append(jl)
+            for S in subsets:
+                S = list(S)
+                mphi = marginal_keep([n] * d, [g] * d, phi, S)
+                sub_phi = [mphi[tuple(unflat([n] * len(S), j))] for j in range(n ** len(S))]
+                sub = {'kind': 'driver', 'shape': [n] * len(S), 'grid': g, 'pops': [dict(pops[i], ms=[0.0] * (len(S) - 1)) for i in S], 'theta0': theta0,
+                       'tf': tf, 'delj': False, 'T': T, 'phi': sub_phi, 'as_func': (mode if len(S) <= 3 else 'const'), 'theta_slope': 0.0}
+                if len(S) == 1:
+                    sub['pops'][0]['beta'] = 1.0
+                cases.append(sub)
+                # every layout of the joint run against the stand-alone run
+                for jl in joints:
+                    iso.append((jl, S, sub))
+                    ctx.count('isolated d=%d |S|=%d joint layout=%s' % (d, len(S), 'C-contiguous' if jl is joint else 'other'))
+                # and the stand-alone run in other layouts against the C-contiguous joint run
+                sl = layouts(len(S))
+                for li in range(len(sl) if not ctx.quick else min(len(sl), 4)):
+                    lay = sl[(li * 3 + d + len(iso)) % len(sl)] if ctx.quick else sl[li]
+                    subl = dict(sub, layout=lay, xlayout=XLAYOUTS[(li + 1) % len(XLAYOUTS)])
+                    cases.append(subl)
+                    iso.append((joint, S, subl))
     # ---- (5) rejection of frozen + migration
     rejects = []
     for d in range(2, 6):
@@ -183,6 +334,120 @@ def run(ctx):
                     keep = keep[::-1]        # order of tokeep must not matter for filter_pops (it never reorders)
                 c = {'kind': 'remove', 'op': 'filter_pops', 'shape': [n] * d, 'grid': g, 'phi': phi, 'keep': keep}
             removes.append(c); cases.append(c)
+        # every memory layout of the density, with remove_pop and filter_pops each (the grid cycles through its own layouts)
+        n = 3 if d == 5 else 4
+        g = numgen.grid(rng, n)
+        phi = asym_density(rng, n, d)
+        for li, lay in enumerate(layouts(d)):
+            keep = sorted(rng.sample(range(1, d + 1), rng.randint(1, d - 1)))
+            for c in ({'kind': 'remove', 'op': 'remove_pop', 'shape': [n] * d, 'grid': g, 'phi': phi, 'k': 1 + (li % d)},
+                      {'kind': 'remove', 'op': 'filter_pops', 'shape': [n] * d, 'grid': g, 'phi': phi, 'keep': keep}):
+                c['layout'] = lay; c['xlayout'] = XLAYOUTS[(li + d) % len(XLAYOUTS)]
+                removes.append(c); cases.append(c)
+    # ---- (7) in-library pipelines: PhiManip.reorder_pops / remove_pop / filter_pops feeding an integrator (and back).  Expectations are
+    # computed on the logical content (transpose_flat / trapezoid marginal); '_eq' is the driver case the integrate step amounts to.
+    pipes_frozen, pipes_iso, pipes_back = [], [], []
+    def reorders(d):
+        ident = list(range(1, d + 1))
+        out = []
+        for o in (ident[::-1], ident[1:] + ident[:1], [2, 1] + ident[2:], ident[:-2] + [d, d - 1]):
+            if o != ident and o not in out:
+                out.append(o)
+        o = list(ident); rng.shuffle(o)
+        if o != ident and o not in out:
+            out.append(o)
+        return out
+    def driver_fields(d, fz, mode, n, iso_=False):
+        pops = [numgen.pop(rng, d, mig=not iso_, sel=not iso_) for _ in range(d)]
+        if iso_:
+            distinct_pops(rng, pops, 0.2, 5, sel=False)
+            tf = 1 / 64
+            dtmin = tf / max(0.25 / p['nu'] for p in pops)
+            T = numgen.logdy(rng, 0.3 * dtmin, 0.9 * dtmin)
+        else:
+            distinct_pops(rng, pops, 0.1, 10)
+            for i, p in enumerate(pops):
+                others = [j for j in range(d) if j != i]
+                p['ms'] = [0.0 if (i in fz or j in fz) else lib.dyadic(rng, 0, 4, 3) for j in others]
+                p['frozen'] = i in fz
+            tf = rng.choice([1 / 64, 1 / 256])
+            mv = max(max(0.25 / p['nu'], sum(p['ms']), abs(p['gamma']) * 0.25) for p in pops)
+            T = numgen.logdy(rng, 1.2 * tf / mv, 2.8 * tf / mv)
+        return {'pops': pops, 'theta0': lib.dyadic(rng, 0.25, 4, 4), 'tf': tf, 'delj': False, 'T': T, 'as_func': mode, 'theta_slope': 0.0}
+    for d in range(2, 6):
+        n = {2: 6, 3: 5, 4: 4, 5: 3}[d]
+        modes = (None, 'const') if d <= 3 else ('const',)
+        inlays = [None] + layouts(d)
+        ros = reorders(d)
+        # (7a) reorder_pops -> integrator with one frozen population (new numbering) -> frozen marginal
+        for oi, order in enumerate(ros):
+            newaxes = [x - 1 for x in order]
+            for f in range(d):
+                for mode in modes:
+                    g = numgen.grid(rng, n, kind=rng.choice(['uniform', 'exp', 'quad', 'random']))
+                    phi = asym_density(rng, n, d)
+                    drv = driver_fields(d, {f}, mode, n)
+                    # most pipelines start from a fresh C-contiguous density (what the library's own models do); every fourth from another layout
+                    lay = inlays[(oi + f) % len(inlays)] if (oi + f) % 4 == 3 else None
+                    c = {'kind': 'pipe', 'shape': [n] * d, 'grid': g, 'phi': phi, 'layout': lay,
+                         'steps': [{'op': 'reorder_pops', 'neworder': order}, dict(drv, op='integrate')]}
+                    eshape, ephi = transpose_flat([n] * d, phi, newaxes)
+                    c['_eq'] = dict(drv, kind='driver', shape=eshape, grid=g, phi=ephi); c['_frozen'] = [f]
+                    c['_what'] = 'reorder_pops(%s) -> %s' % (order, ['', 'one_pop', 'two_pops', 'three_pops', 'four_pops', 'five_pops'][d])
+                    pipes_frozen.append(c); cases.append(c)
+        # (7b) reorder_pops -> isolated populations, one step -> every single population against one_pop alone
+        for mode in modes:
+            order = rng.choice(ros); newaxes = [x - 1 for x in order]
+            g = numgen.grid(rng, n, kind=rng.choice(['uniform', 'exp', 'quad']))
+            phi = asym_density(rng, n, d)
+            drv = driver_fields(d, set(), mode, n, iso_=True)
+            c = {'kind': 'pipe', 'shape': [n] * d, 'grid': g, 'phi': phi, 'layout': None,
+                 'steps': [{'op': 'reorder_pops', 'neworder': order}, dict(drv, op='integrate')]}
+            eshape, ephi = transpose_flat([n] * d, phi, newaxes)
+            c['_eq'] = dict(drv, kind='driver', shape=eshape, grid=g, phi=ephi)
+            c['_what'] = 'reorder_pops(%s) -> %s' % (order, ['', 'one_pop', 'two_pops', 'three_pops', 'four_pops', 'five_pops'][d])
+            cases.append(c)
+            for i in range(d):
+                _, sp = flat_marginal(eshape, [g] * d, ephi, [i])
+                sub = dict(drv, kind='driver', shape=[n], grid=g, pops=[dict(drv['pops'][i], ms=[], beta=1.0)], phi=sp)
+                cases.append(sub)
+                pipes_iso.append((c, [i], sub))
+        # (7c) remove_pop / filter_pops -> integrator on the remaining (>= 2) populations with one frozen -> frozen marginal
+        if d >= 3:
+            plans = [('remove_pop', k) for k in range(1, d + 1)]
+            for r in range(2, d):
+                ks = list(itertools.combinations(range(1, d + 1), r))
+                plans += [('filter_pops', list(k)) for k in (ks if not ctx.quick else rng.sample(ks, min(len(ks), 2)))]
+            for pi, (op, arg) in enumerate(plans):
+                keep = [a for a in range(d) if a != arg - 1] if op == 'remove_pop' else sorted(x - 1 for x in arg)
+                dd = len(keep)
+                mode = modes[pi % len(modes)] if dd <= 3 else 'const'
+                g = numgen.grid(rng, n, kind=rng.choice(['uniform', 'exp', 'quad', 'random']))
+                phi = asym_density(rng, n, d)
+                f = pi % dd
+                drv = driver_fields(dd, {f}, mode, n)
+                lay = inlays[pi % len(inlays)]
+                st = {'op': op, 'k': arg} if op == 'remove_pop' else {'op': op, 'keep': (arg if pi % 3 else arg[::-1])}
+                c = {'kind': 'pipe', 'shape': [n] * d, 'grid': g, 'phi': phi, 'layout': lay, 'xlayout': XLAYOUTS[pi % len(XLAYOUTS)],
+                     'steps': [st, dict(drv, op='integrate')]}
+                eshape, ephi = flat_marginal([n] * d, [g] * d, phi, keep)
+                c['_eq'] = dict(drv, kind='driver', shape=eshape, grid=g, phi=ephi); c['_frozen'] = [f]
+                c['_what'] = '%s(%s) -> %s' % (op, arg, ['', 'one_pop', 'two_pops', 'three_pops', 'four_pops', 'five_pops'][dd])
+                pipes_frozen.append(c); cases.append(c)
+        # (7d) integrator with a frozen population -> reorder_pops -> filter_pops(that population): the library's own marginal of the
+        # frozen population is the input's
+        for mode in modes:
+            for f in range(d):
+                order = ros[(f + (0 if mode is None else 1)) % len(ros)]
+                pos = [x - 1 for x in order].index(f) + 1
+                g = numgen.grid(rng, n, kind=rng.choice(['uniform', 'exp', 'quad', 'random']))
+                phi = asym_density(rng, n, d)
+                drv = driver_fields(d, {f}, mode, n)
+                c = {'kind': 'pipe', 'shape': [n] * d, 'grid': g, 'phi': phi, 'layout': inlays[(f + d) % len(inlays)] if f % 2 else None,
+                     'steps': [dict(drv, op='integrate'), {'op': 'reorder_pops', 'neworder': order}, {'op': 'filter_pops', 'keep': [pos]}]}
+                c['_frozen'] = [f]
+                c['_what'] = '%s -> reorder_pops(%s) -> filter_pops([%d])' % (['', 'one_pop', 'two_pops', 'three_pops', 'four_pops', 'five_pops'][d], order, pos)
+                pipes_back.append(c); cases.append(c)
     for i, c in enumerate(cases):
         c['id'] = i
     res = lib.run_impl('c04_impl.py', [{k: v for k, v in c.items() if not k.startswith('_') and k != 'pop'} | ({'pop': c['pop']} if 'pop' in c else {}) for c in cases], timeout=3000)
@@ -196,13 +461,21 @@ def run(ctx):
             c['_out'] = r['res']
             if 'shape' in r:
                 c['_oshape'] = r['shape']
+            if 'trace' in r:
+                c['_trace'] = r['trace']
 
+    nviol = {}
     def pred(name, ok, what, data, sig=None, nontriv=True, key=None):
         ctx.case(signature=sig if nontriv else None, sample=dict(predicate=name, **{k: v for k, v in data.items() if k in ('d', 'k', 'dev', 'S', 'frozen')}) if ctx.evaluations % 23 == 0 else None)
         ctx.count(name)
         ctx.obligation(name + ' ' + str(sig)[:60], ok, 'predicate', '' if ok else what)
         if not ok:
-            ctx.violation(what, data=data, key=key)
+            # every failing evaluation fails its obligation; replays are written for the first two per (predicate, dimension) so that the
+            # ten reported violations span the predicates and dimensions instead of one family of layouts
+            vk = (name, data.get('d'))
+            nviol[vk] = nviol.get(vk, 0) + 1
+            if nviol[vk] <= 2 or key is not None:
+                ctx.violation(what, data=data, key=key)
 
     # (1) sweeps: mass' = mass - dt (W0 out0 phi'[corner0] + W1 out1 phi'[corner1])
     for c in sweeps:
@@ -264,27 +537,59 @@ def run(ctx):
             worst = max(worst, e)
             if e > 1e-12:
                 ok = False
-        pred('mutation influx', ok, '_inject_mutations_%dD: density changed by something other than dt*theta0/2 (trapezoid-normalised) at the first interior point of each active population, or a frozen/nomut population received mutations (rel dev %.3g)' % (d, worst),
+        pred('mutation influx', ok, '_inject_mutations_%dD [density: %s]: density changed by something other than dt*theta0/2 (trapezoid-normalised) at the first interior point of each active population, or a frozen/nomut population received mutations (rel dev %.3g)' % (d, lname(c), worst),
              {'d': d, 'dev': worst, 'case': c, 'frozen': c['frozen']}, sig=('inject', c['id']))
-    # (3) frozen marginals
+    # (3) frozen marginals (direct driver calls in every layout, and the pipelines that end in an integrator)
+    def pub(c):
+        return {a: b for a, b in c.items() if not a.startswith('_')}
+    def frozen_pred(c, eq, what, tag):
+        """eq: the (logical) driver case whose frozen populations are c['_frozen']; c['_out']: the density after it"""
+        d = len(eq['shape']); n = eq['shape'][0]; g = eq['grid']
+        if len(c['_out']) != n ** d or c.get('_oshape', eq['shape']) != eq['shape']:
+            pred('frozen marginal', False, '%s: result has shape %s, expected %s' % (what, c.get('_oshape'), eq['shape']),
+                 {'d': d, 'frozen': c['_frozen'], 'case': pub(c)}, sig=(tag, c['id'], 'shape'))
+            return
+        for f in c['_frozen']:
+            mb = marginal_keep(eq['shape'], [g] * d, eq['phi'], [f]); ma = marginal_keep(eq['shape'], [g] * d, c['_out'], [f])
+            scale = max(abs(v) for v in mb.values())
+            dev = max(abs(ma[(i,)] - mb[(i,)]) for i in range(1, n - 1)) / scale if n > 2 else 0.0
+            data = {'d': d, 'frozen': c['_frozen'], 'dev': dev, 'layout': lname(c), 'case': pub(c), 'marginal_before': list(mb.values()), 'marginal_after': list(ma.values())}
+            if '_trace' in c:
+                data['handed_on'] = c['_trace']
+            pred('frozen marginal', dev <= 1e-10,
+                 "%s: the frozen population %d's marginal density changed at an interior frequency (rel dev %.3g) while the others evolved" % (what, f + 1, dev),
+                 data, sig=(tag, c['id'], f))
     for c in frozen_cases:
         if '_out' not in c:
             continue
-        d = len(c['shape']); n = c['shape'][0]; g = c['grid']
-        for f in c['_frozen']:
-            mb = marginal_keep(c['shape'], [g] * d, c['phi'], [f]); ma = marginal_keep(c['shape'], [g] * d, c['_out'], [f])
-            scale = max(abs(v) for v in mb.values())
-            dev = max(abs(ma[(i,)] - mb[(i,)]) for i in range(1, n - 1)) / scale if n > 2 else 0.0
-            pred('frozen marginal', dev <= 1e-10,
-                 "%d populations: the frozen population %d's marginal density changed at an interior frequency (rel dev %.3g) while the others evolved" % (d, f + 1, dev),
-                 {'d': d, 'frozen': c['_frozen'], 'dev': dev, 'case': {a: b for a, b in c.items() if not a.startswith('_')}, 'marginal_before': list(mb.values()), 'marginal_after': list(ma.values())},
-                 sig=('frozen', c['id'], f))
+        frozen_pred(c, c, '%d populations [density: %s]' % (len(c['shape']), lname(c)), 'frozen')
+    for c in pipes_frozen:
+        if '_out' not in c:
+            continue
+        frozen_pred(c, c['_eq'], 'pipeline %s [input density: %s]' % (c['_what'], lname(c)), 'pipe-frozen')
+    for c in pipes_back:
+        if '_out' not in c:
+            continue
+        d = len(c['shape']); n = c['shape'][0]; g = c['grid']; f = c['_frozen'][0]
+        _, mb = flat_marginal(c['shape'], [g] * d, c['phi'], [f])
+        out = c['_out']
+        scale = max(abs(v) for v in mb)
+        dev = max(abs(out[i] - mb[i]) for i in range(1, n - 1)) / scale if len(out) == n and c.get('_oshape') == [n] else float('inf')
+        pred('frozen marginal', dev <= 1e-10,
+             "pipeline %s [input density: %s]: the frozen population %d's marginal, extracted by the library itself, is not the input's at an interior frequency (rel dev %.3g)" % (c['_what'], lname(c), f + 1, dev),
+             {'d': d, 'frozen': c['_frozen'], 'dev': dev, 'layout': lname(c), 'case': pub(c), 'marginal_before': mb, 'marginal_after': out, 'handed_on': c.get('_trace')},
+             sig=('pipe-back', c['id'], f))
     # (4) isolated subsets
-    for joint, S, sub in iso:
+    for joint, S, sub in iso + pipes_iso:
         if '_out' not in joint or '_out' not in sub:
             continue
-        d = len(joint['shape']); n = joint['shape'][0]; g = joint['grid']
-        mj = marginal_keep(joint['shape'], [g] * d, joint['_out'], S)
+        jeq = joint.get('_eq', joint)
+        d = len(jeq['shape']); n = jeq['shape'][0]; g = jeq['grid']
+        if len(joint['_out']) != n ** d or len(sub['_out']) != n ** len(S):
+            pred('isolated subset marginal', False, 'result sizes %d / %d do not match the input shapes' % (len(joint['_out']), len(sub['_out'])),
+                 {'d': d, 'S': S, 'joint': pub(joint), 'alone': pub(sub)}, sig=('iso', joint['id'], sub['id'], tuple(S)))
+            continue
+        mj = marginal_keep(jeq['shape'], [g] * d, joint['_out'], S)
         scale = max(abs(v) for v in sub['_out']) or 1.0
         dev = 0.0
         for j, v in enumerate(sub['_out']):
@@ -292,10 +597,11 @@ def run(ctx):
             if all(i == 0 for i in ix) or all(i == n - 1 for i in ix):
                 continue
             dev = max(dev, abs(mj[ix] - v) / scale)
+        what = ('%d isolated populations' % d) if '_what' not in joint else ('pipeline %s, isolated populations' % joint['_what'])
         pred('isolated subset marginal', dev <= 1e-10,
-             '%d isolated populations (no migration, no selection): the marginal density of populations %s after a joint step differs from integrating that subset alone with the same step (rel dev %.3g)' % (d, [s + 1 for s in S], dev),
-             {'d': d, 'S': S, 'dev': dev, 'joint': {a: b for a, b in joint.items() if not a.startswith('_')}, 'alone': {a: b for a, b in sub.items() if not a.startswith('_')}},
-             sig=('iso', joint['id'], tuple(S)))
+             '%s (no migration, no selection) [joint density: %s; stand-alone density: %s]: the marginal density of populations %s after a joint step differs from integrating that subset alone with the same step (rel dev %.3g)' % (what, lname(joint), lname(sub), [s + 1 for s in S], dev),
+             {'d': d, 'S': S, 'dev': dev, 'layout_joint': lname(joint), 'layout_alone': lname(sub), 'joint': pub(joint), 'alone': pub(sub)},
+             sig=('iso', joint['id'], sub['id'], tuple(S)))
     # (5) rejection
     for c in rejects:
         if '_out' not in c:
@@ -315,17 +621,38 @@ def run(ctx):
         scale = max(abs(v) for v in want) or 1.0
         dev = max(abs(a - b) for a, b in zip(want, c['_out'])) / scale if len(want) == len(c['_out']) else float('inf')
         pred('remove/filter is trapezoid marginalisation', dev <= 1e-12,
-             '%s on a %d-D density is not the trapezoid marginal over the dropped populations in the original order (rel dev %.3g)' % (c['op'], d, dev),
-             {'d': d, 'dev': dev, 'case': c}, sig=('remove', c['id']))
+             '%s on a %d-D density [%s] is not the trapezoid marginal over the dropped populations in the original order (rel dev %.3g)' % (c['op'], d, lname(c), dev),
+             {'d': d, 'dev': dev, 'layout': lname(c), 'case': {a: b for a, b in c.items() if not a.startswith('_')}}, sig=('remove', c['id']))
     # ---- correspondence of the frozen-flag drivers against the model
-    sel = [c for c in frozen_cases if '_out' in c][:ctx.pick(6, 120)]
-    exprs = [(c['id'], c02.coq_dcase(c, c['_out'])) for c in sel]
-    results = ctx.coq_cases('driver', HEADER, exprs, '(dcheck %s)' % q(TOL), 'rel 1e-09 of max|phi|', shard=ctx.pick(2, 16), timeout=1800)
+    # (the model knows nothing about memory: whatever layout the density arrives in, and whichever PhiManip step produced it, the real
+    # code must reproduce the model on the logical content)
+    plain = [c for c in frozen_cases if '_out' in c and not c.get('layout')][:ctx.pick(6, 120)]
+    extra = []
+    for d in range(2, 6):
+        cl = [c for c in layout_clones if '_out' in c and len(c['shape']) == d and layout_perm(c['layout'], d) != list(range(d))]
+        other = [c for c in layout_clones if '_out' in c and len(c['shape']) == d and layout_perm(c['layout'], d) == list(range(d))]
+        pf = [c for c in pipes_frozen if '_out' in c and len(c['_eq']['shape']) == d and len(c['_out']) == len(c['_eq']['phi'])]
+        k = ctx.pick(1, 6)
+        # rotate through the layouts from run to run and, within a run, across dimensions
+        for pool, kk in ((cl, k), (other, k), (pf, k)):
+            if pool:
+                st = (ctx.rng.randrange(len(pool)))
+                extra += [pool[(st + 7 * i) % len(pool)] for i in range(min(kk, len(pool)))]
+    sel = plain + extra
+    def eqcase(c):
+        return c.get('_eq', c)
+    def describe(c):
+        eq = eqcase(c)
+        if '_what' in c:
+            return 'pipeline %s [input density: %s] (frozen %s)' % (c['_what'], lname(c), c['_frozen'])
+        return '%d pops, frozen %s, density: %s' % (len(eq['shape']), c['_frozen'], lname(c))
+    exprs = [(c['id'], c02.coq_dcase(eqcase(c), c['_out'])) for c in sel]
+    results = ctx.coq_cases('driver', HEADER, exprs, '(dcheck %s)' % q(TOL), 'rel 1e-09 of max|phi|', shard=ctx.pick(6, 16), timeout=1800)
     for c in sel:
         rr = results.get(c['id'])
         ok = rr is not None and rr[0]
-        ctx.obligation('frozen-flag driver case %d (%d pops, frozen %s) = model' % (c['id'], len(c['shape']), c['_frozen']), ok, 'correspondence', '' if ok else 'coq result %r' % (rr,))
+        ctx.obligation('frozen-flag driver case %d (%s) = model' % (c['id'], describe(c)), ok, 'correspondence', '' if ok else 'coq result %r' % (rr,))
         if not ok:
-            ctx.violation('%d-population driver with frozen populations %s differs from the model (coq %r)' % (len(c['shape']), c['_frozen'], rr),
-                          data={'case': {x: y for x, y in c.items() if not x.startswith('_')}, 'impl': c['_out']}, no_input=True,
+            ctx.violation('driver case (%s) differs from the model (coq %r)' % (describe(c), rr),
+                          data={'case': {x: y for x, y in c.items() if not x.startswith('_')}, 'layout': lname(c), 'impl': c['_out']}, no_input=True,
                           broken='correspondence of the frozen-flag drivers with the Coq model (Model/SchemeCheck.v dcheck): the mass-balance theorems are no longer shown to apply to this code; the predicates on the implementation found no failing input unless reported separately')
